@@ -69,7 +69,7 @@ def roles(P):
         for f in u.functions.values():
             if f in r['insert'] or f in r['remove'] or any(c.callee in ('malloc', 'calloc') for c in f.calls()):
                 continue            # the constructor zeroes a fresh table
-            if any(k == 'set' and d == 0 for ups_ in _counter_updates(f).values() for k, d, x in ups_) and any((c.callee or '').startswith('llvm.memset') and f.last_field(f.path(c.a[0])) == 'pixman_glyph_cache_t.glyphs' for c in f.calls()):
+            if any((c.callee or '').startswith('llvm.memset') and f.last_field(f.path(c.a[0])) == 'pixman_glyph_cache_t.glyphs' for c in f.calls()):
                 r['clear'].append(f)
     for k, v in r.items():
         if len(v) != 1:
@@ -205,8 +205,18 @@ def r2_counters_pair(ck, P):
     # clear
     f = ro['clear']; ck.saw(f)
     ups = _counter_updates(f)
+    def counted_down(fld):
+        # while (counter > 0) { ...; counter--; } leaves the counter at 0 as well
+        if not any(k == 'delta' and d == -1 for k, d, x in ups.get(fld, [])):
+            return False
+        for x in f.insts():
+            if x.op == 'icmp' and x.a[1][0] == 'c' and int(x.a[1][1]) == 0 and x.pred in ('sgt', 'ne', 'ugt'):
+                y = f.v(x.a[0])
+                if y is not None and y.op == 'load' and f.last_field(f.path(y.a[0])) == fld:
+                    return True
+        return False
     for fld in (NG, NT):
-        if any(k == 'set' and d == 0 for k, d, x in ups.get(fld, [])):
+        if any(k == 'set' and d == 0 for k, d, x in ups.get(fld, [])) or counted_down(fld):
             ck.ok(R, 'clear: %s = 0' % fld.split('.')[1])
         else:
             ck.violation(R, f.name, 'reset of ' + fld.split('.')[1], 'the table is emptied without resetting %s' % fld.split('.')[1], '%s:%d' % (f.unit.name, f.line))
@@ -384,3 +394,36 @@ def r5_component_alpha_siblings(ck, P):
             ck.violation(R, f.name, 'component-alpha predicate', '%s switches component alpha on without testing the format at all' % f.name, c.loc())
         else:
             ck.violation(R, f.name, 'component-alpha predicate', '%s decides component alpha with %s, but %s uses %s: the two disagree on some formats (e.g. an sRGB or other format type one predicate knows and the other does not), so glyphs and the mask they are accumulated into are combined differently' % (f.name, sorted(g), sites[0][0].name, sorted(ref)), c.loc())
+
+
+def r6_arguments_kept_whole(ck, P):
+    """T-WID: what the cache records about a glyph (origin, keys) is stored in fields as wide as the arguments of the insertion call."""
+    R = ck.rule('C17-R6', 'pixman_glyph_cache_insert stores each of its integer arguments into the cache entry without narrowing it (no trunc between the parameter and the store): an origin outside the narrower range would otherwise come back displaced by a multiple of its modulus', floor=2)
+    u, ro = roles(P)
+    f = ro['insert']
+    # the exported entry point that reaches the slot store
+    cands = [g for g in u.functions.values() if g.exported and (g is f or any(c.callee == f.name for c in g.calls()))] or [f]
+    n = 0
+    for g in cands:
+        ck.saw(g)
+        for x in g.insts():
+            if x.op != 'store':
+                continue
+            fld = g.last_field(g.path(x.a[1]))
+            if not fld or not fld.startswith('glyph_t.'):
+                continue
+            v = g.v(x.a[0]); narrowed = None; src = x.a[0]
+            while v is not None and v.op in ('trunc', 'sext', 'zext'):
+                if v.op == 'trunc':
+                    narrowed = v
+                src = v.a[0]; v = g.v(src)
+            if src[0] != 'a' or g.params[src[1]][1].endswith('*'):
+                continue
+            n += 1
+            where = '%s: %s <- parameter %s' % (g.name, fld, g.params[src[1]][0] or src[1])
+            if narrowed is not None:
+                ck.violation(R, g.name, 'field %s' % fld, '%s stores its argument %s (%s) into %s through a truncation to %s: values outside that range are recorded modulo 2^%s, so the glyph is later drawn (and measured) at a different origin than the one it was inserted with' % (g.name, g.params[src[1]][0] or src[1], g.params[src[1]][1], fld, narrowed.ty, narrowed.ty[1:]), x.loc())
+            else:
+                ck.ok(R, where)
+    if n == 0:
+        ck.incomplete(R, 'no store of an integer argument into a glyph_t field found in the insertion path')
